@@ -58,6 +58,21 @@ NEGATIVE = [
     ("s0", "onMixed: {}", "overloaded signal"),        # mixed(int), mixed(int,bool), mixed(int,QString)
     ("s0", "onMixed2: {}", "overloaded signal"),       # mixed2(), mixed2(int), mixed2(QString)
     ("s0", "onMixed3: function(a: int) {}", "overloaded signal"),   # mixed3(int,int), mixed3(int), mixed3(int,QString,bool)... see vftypes
+    # handlers written on something that is not the object itself: a nested object (pointer property), a gadget, an attached type.
+    # They cannot be connected; accepting one silently would leave a handler that never runs
+    ("s0", "peer.onFired: {}", "not supported"),
+    ("s0", "peer { onFired: console.log(1) }", "not supported"),
+    ("s0", "font.onBoldChanged: {}", "not supported"),
+    ("s0", "QLayout.onRowChanged: {}", "not supported"),
+]
+# whole objects holding a handler that cannot be connected (nested objects of Qt's item views)
+NEGATIVE_OBJECTS = [
+    "QTreeView { header.onSectionClicked: function(index: int) { console.log(index) } }",
+    "QTreeView { header { onSectionClicked: console.log(1) } }",
+    "QTableView { horizontalHeader.onSectionPressed: {} }",
+    "QTableView { verticalHeader { visible: false; onSectionCountChanged: function(a: int, b: int) {} } }",
+    "QLabel { font { onBoldChanged: {} } }",
+    "QWidget { QVBoxLayout { QLabel { QLayout.onAlignmentChanged: {} } } }",
 ]
 PARAM_ANNOT = dict(ge.ANNOT)
 PURE_METHODS = {"twice", "sum", "greet", "test", "half", "other"}
